@@ -153,8 +153,9 @@ def _plugin_child(world, spec, out_path, trace_path):
 
                 res["finish_exc"] = "".join(traceback.format_exception(*outcome.excinfo))[-3000:]
 
-    argv = ["-p", "inline_snapshot.pytest_plugin", "-p", "no:cacheprovider", "-p", "no:xdist" if not spec.get("xdist") else "xdist"]
-    if spec.get("xdist"):
+    argv = ["-p", "inline_snapshot.pytest_plugin", "-p", "no:cacheprovider", "-p", "no:xdist"]
+    if spec.get("xdist") is not None:
+        # xdist loaded; "-n 0" means: plugin present but not distributing
         argv = ["-p", "inline_snapshot.pytest_plugin", "-p", "no:cacheprovider", "-p", "xdist", "-n", str(spec["xdist"])]
     flags = spec.get("flags")
     if flags is not None:
